@@ -207,6 +207,18 @@ static bool eval_op(const std::string & op, const std::string & grp, const std::
     run_search<int>(r, x[0], out);
     return true;
   }
+  if (op == "search2_f64" || op == "search2_int") {  // TWO-argument overload (default three-way comparison)
+    if (x.empty()) return false;
+    if (op == "search2_f64") {
+      std::vector<double> r(x.begin() + 1, x.end());
+      out.push_back(double(smooth::utils::binary_interval_search(r, x[0]) - r.cbegin()));
+    } else {
+      std::vector<int> r;
+      for (std::size_t i = 1; i < x.size(); ++i) r.push_back(int(x[i]));
+      out.push_back(double(smooth::utils::binary_interval_search(r, x[0]) - r.cbegin()));
+    }
+    return true;
+  }
   if (op == "poly_basis" || op == "poly_cumbasis") {
     auto c = grp.find(':');
     if (c == std::string::npos || !x.empty()) return false;
@@ -648,6 +660,29 @@ static void probes()
   // vector<int> whose span exceeds INT_MAX (before /repo c387525: *(rght-1) - *left overflowed in int)
   probe_one("search_int", {-2000000000.0, -1.0, 0.0, 1.0, 2000000000.0}, 0.5, "probe_int_span_overflow");
   probe_one("search_int", {-2000000000.0, 0.0, 1.0, 2.0, 3.0, 4.0, 5.0, 2000000000.0}, 4.5, "probe_int_span_overflow");
+  // the TWO-argument overload (default comparison) on every sorted range of length <= 4 over {-3,-1,0,4},
+  // integer and floating ranges, queried with the letters, the midpoints and values outside (forked: a
+  // wrong comparison can make the interpolation search run away)
+  {
+    const double al[4] = {-3.0, -1.0, 0.0, 4.0};
+    std::vector<double> qs = {-4.0, 5.0, -3.5, -2.5, -1.5, -0.5, 0.5, 2.0};
+    for (int i = 0; i < 4; ++i) qs.push_back(al[i]);
+    for (int n = 0; n <= 4; ++n)
+      for (int c0 = 0; c0 <= n; ++c0)
+        for (int c1 = 0; c0 + c1 <= n; ++c1)
+          for (int c2 = 0; c0 + c1 + c2 <= n; ++c2) {
+            const int c3 = n - c0 - c1 - c2;
+            std::vector<double> rr;
+            rr.insert(rr.end(), c0, al[0]);
+            rr.insert(rr.end(), c1, al[1]);
+            rr.insert(rr.end(), c2, al[2]);
+            rr.insert(rr.end(), c3, al[3]);
+            for (double q : qs) {
+              probe_one("search2_int", rr, q, "probe_two_arg_int");
+              probe_one("search2_f64", rr, q, "probe_two_arg_f64");
+            }
+          }
+  }
 }
 
 // ------------------------------------------------------------------ eval mode
